@@ -18,6 +18,7 @@ import (
 	"verifharness/core"
 	"verifharness/gen"
 	"verifharness/model"
+	"verifharness/types"
 )
 
 // C01 (round trip) and C02 (wire format) share their workload: generated types
@@ -82,6 +83,11 @@ func roundTripCase(c *core.Ctx, idx int, mode int) {
 	}
 	if idx%37 == 11 && mode == modeC01 {
 		lateRegistration(c, idx)
+		return
+	}
+	if idx%41 == 13 {
+		cfg := instCfgs()[idx%4]
+		countedContainers(c, idx, cfg, instNew(cfg))
 		return
 	}
 	tc := genType(c, idx, nil)
@@ -315,6 +321,95 @@ func sizedBodies(c *core.Ctx, idx int, tc *tcase, v reflect.Value, mode int) {
 			rec.Distinct("sized_body_kinds", core.Hash64(fmt.Sprint(target), w.name))
 		}
 	}
+}
+
+// countedContainers: slices and maps with exactly 127, 128, 129, 16383 and 16384 entries (the edges
+// of the 1- and 2-byte counts) of small elements, as plain and as proto-tagged fields of a struct
+// that is itself a field of an outer struct - so that whatever the codec reports as the size of
+// such a container becomes a length prefix - compared with the documented bytes and round-tripped.
+func countedContainers(c *core.Ctx, idx int, cfg model.Cfg, p *plenc.Plenc) bool {
+	rec := c.Rec
+	name := cfgName(cfg)
+	T := reflect.TypeOf
+	n := []int{127, 128, 129, 16383, 16384, 255, 256}[(idx/7)%7]
+	mk := []func() reflect.Value{
+		func() reflect.Value {
+			m := make(map[int32]string, n)
+			for i := 0; i < n; i++ {
+				m[int32(i)] = "v"
+			}
+			return reflect.ValueOf(m)
+		},
+		func() reflect.Value {
+			m := make(map[string]types.Leaf, n)
+			for i := 0; i < n; i++ {
+				m[strconv.Itoa(i)] = types.Leaf{A: i}
+			}
+			return reflect.ValueOf(m)
+		},
+		func() reflect.Value {
+			s := make([]string, n)
+			for i := range s {
+				s[i] = "e"
+			}
+			return reflect.ValueOf(s)
+		},
+		func() reflect.Value { return reflect.ValueOf(make([]types.Leaf, n)) },
+		func() reflect.Value {
+			s := make([]int64, n)
+			for i := range s {
+				s[i] = int64(i)
+			}
+			return reflect.ValueOf(s)
+		},
+		func() reflect.Value { return reflect.ValueOf(make([]bool, n)) },
+	}
+	val := mk[idx%len(mk)]()
+	for _, opt := range []string{"", ",proto"} {
+		ht := reflect.StructOf([]reflect.StructField{{Name: "X", Type: val.Type(), Tag: reflect.StructTag(`plenc:"2` + opt + `"`)}, {Name: "Z", Type: T(""), Tag: `plenc:"3"`}})
+		ot := reflect.StructOf([]reflect.StructField{{Name: "H", Type: ht, Tag: `plenc:"1"`}, {Name: "E", Type: T(int8(0)), Tag: `plenc:"2"`}, {Name: "L", Type: reflect.SliceOf(ht), Tag: `plenc:"3"`}})
+		if cfg.Validate(ot, "") != "" {
+			continue
+		}
+		hv := reflect.New(ht).Elem()
+		hv.Field(0).Set(val)
+		hv.Field(1).SetString("z")
+		ov := reflect.New(ot).Elem()
+		ov.Field(0).Set(hv)
+		ov.Field(1).SetInt(-1)
+		l := reflect.MakeSlice(ot.Field(2).Type, 2, 2)
+		l.Index(1).Set(hv)
+		ov.Field(2).Set(l)
+		what := fmt.Sprintf("%s with exactly %d entries in a field tagged `2%s` of a nested struct [%s]", val.Type(), n, opt, name)
+		data, err, pn := marshal(p, nil, ptrTo(ov))
+		rec.Eval(1)
+		if err != nil || pn != "" {
+			rec.Violation("counted-container", fmt.Sprintf("Marshal of %s: %v %s", what, err, trunc1(pn)), nil)
+			return false
+		}
+		if _, err := cfg.Canon(ot, "", data); err != nil {
+			rec.Violation("counted-container", fmt.Sprintf("the encoding of %s cannot be walked to its end (a size that disagrees with the bytes written becomes a wrong length prefix): %v", what, err), nil)
+			return false
+		}
+		if val.Kind() != reflect.Map {
+			if want := cfg.Encode(ov); !bytes.Equal(data, want) {
+				rec.Violation("counted-container", fmt.Sprintf("the encoding of %s differs from the documented format (%d vs %d bytes)", what, len(data), len(want)), nil)
+				return false
+			}
+		}
+		out := reflect.New(ot)
+		if err, pn := unmarshal(p, data, out.Interface()); err != nil || pn != "" {
+			rec.Violation("counted-container", fmt.Sprintf("Unmarshal of %s: %v %s", what, err, trunc1(pn)), nil)
+			return false
+		}
+		if d := model.Diff(cfg.Normalise(ov, "", true), out.Elem(), "$"); d != "" {
+			rec.Violation("counted-container", fmt.Sprintf("%s does not round-trip: %s", what, d), nil)
+			return false
+		}
+		rec.Count("counted_containers", 1)
+		rec.NonTrivial(core.Hash64("counted", val.Type().String(), opt, fmt.Sprint(n), name))
+	}
+	return true
 }
 
 // lateRegistration: a codec is registered for a type the instance has already used at top level (the
